@@ -13,7 +13,7 @@ import sys
 sys.path.insert(0, os.path.dirname(os.path.abspath(__file__)))
 import units
 import gen
-from weave import weave, unbalanced_annotations
+from weave import weave, unbalanced_annotations, exec_annotations
 
 
 def accept(pn):
@@ -26,6 +26,8 @@ def accept(pn):
     bad = unbalanced_annotations(e, ptxt)
     for b in bad:
         print('  warning: unbalanced annotation run at %s:%d: %s' % (tp, b[0], b[1]))
+    for b in exec_annotations(e, ptxt):
+        print('  LINT: executable `let` inserted by the template at %s:%d: %s' % (tp, b[0], b[1]))
     print('accepted %s: code tokens %d, annotation tokens %d, rules %s' % (pn, w.code_tokens, w.annot_tokens, dict(fired)))
 
 
